@@ -177,18 +177,24 @@ def hash_shard(config, seed, n_examples, import_ctx="top"):
         if which == "ggh":
             n = draw(st.integers(1, 40))
             bits = [draw(st.integers(0, 1)) for _ in range(n)]
-            secret = draw(st.booleans())
+            secret = draw(st.sampled_from([True, False, "mixed"]))
             case = {"config": config, "part": "ggh", "bits": bits, "secret": secret}
+            if secret == "mixed":
+                # known (plain) and secret bits side by side; the first one secret (a leading plain bit is not supported)
+                case["mask"] = [True] + [draw(st.booleans()) for _ in bits[1:]]
             if gh.PRIME != p:
                 raise core.HarnessError("ggh_hash bound to another field")
-            arg = [rt.PrivVal(b) for b in bits] if secret else list(bits)
+            if secret == "mixed":
+                arg = [rt.PrivVal(b) if m_ else b for b, m_ in zip(bits, case["mask"])]
+            else:
+                arg = [rt.PrivVal(b) for b in bits] if secret else list(bits)
             arg0 = list(arg)
             out = gh.ggh_hash(arg)
             if len(arg) != len(arg0) or any(a is not b for a, b in zip(arg, arg0)):
                 fail(case, "ggh_hash changed the list it was given", "argument-altered")
             got = out.value if secret else out
             want = ref_ggh(bits, p)
-            stats.case(case, True, ("ggh:" + ("secret" if secret else "plain"),), sample_cap=2)
+            stats.case(case, True, ("ggh:" + ("mixed" if secret == "mixed" else "secret" if secret else "plain"),), sample_cap=2)
             if got % p != want:
                 fail(case, "subset-sum hash of %r returned %d, reference gives %d" % (bits, got, want), "ggh")
             if secret and (r1cs.lc_value(out.lc.d, rec.vals, p) - want) % p:
